@@ -1346,7 +1346,9 @@ class Executor(Generic[TContext]):
                     append_awaitable(index)
 
                 index += 1
-        except Exception:
+        except (Exception, CancelledError):
+            # Also close the iterator when the completion is cancelled, since
+            # otherwise a source that is suspended between two items stays open.
             if early_return is not None:  # pragma: no branch
                 with suppress_exceptions:
                     await early_return()
